@@ -612,6 +612,9 @@ def unit_gff_step(U):
             pk = primary_key("relations")
             U.prove(base + ".pk#p%d" % p.index, "relations is a set of (parent, child, level) triples: PRIMARY KEY (parent, child, level) in the real SCHEMA", [],
                     z3.BoolVal(pk is not None and sorted(pk) == ["child", "level", "parent"]), {}, replay=replay)
+    # side condition of the generic-row rule (one / two representative lines stand for all): the line loop carries no local state
+    from pyvc.harness import require_loop_state
+    require_loop_state(C._GFFDBCreator._populate_from_lines, {0: (), 1: ()}, "the generic-row rule (C02.gff.step)")
 
 
 def _rel_fn():
@@ -781,6 +784,8 @@ def unit_gff_finish(U, prefix="C02", only_level1=True):
             unlinked = [x.args[0] for x in effs if x.kind == "unlink"]
             U.prove(base + ".tempfile#p%d" % p.index, "the temp file is removed unless _keep_tempfiles", [],
                     z3.BoolVal(len(created) == 1 and ((not keep and unlinked == created) or (bool(keep) and unlinked == []))), {}, replay=replay)
+    from pyvc.harness import require_loop_state
+    require_loop_state(C._GFFDBCreator._update_relations, {0: (), 1: (), 2: ()}, "the generic-row rule (%s.gff.finish)" % prefix)
 
 
 def unit_lemma(U):
